@@ -10,7 +10,7 @@
     spellings of a path (as requested, and [resolved_path]: percent-decoded, repeated '/' collapsed —
     the path a file is read from): allowed for both; [req_verdict] = [cors_spec2] on a request with the
     rule found by [RuleSet::get]; [no_internal] = the cache holds nothing under an internal route (an
-    invariant of every history, [cors_cache_independent] (a)).  Parameters of the theorems (arbitrary):
+    invariant of every history, [cors_cache_independent] (a)).  Arguments of the theorems (arbitrary):
     [parse] = [http::Uri::try_from]; [filt] = [host.options.status_code_cache_filter]; [app] = the
     application's request handlers — Prepare extensions bound to a path or to a predicate and the
     files of the host — not mounted on internal routes and not reading the Origin header. *)
